@@ -430,6 +430,10 @@ func ddMetJSON(c *Case, r *rand.Rand) []byte {
 		}
 		ps := make([]JV, len(s.Points))
 		for i, p := range s.Points {
+			if p.NoTs {
+				ps[i] = jO(kv("value", jN(jfloat(p.Val))))
+				continue
+			}
 			ps[i] = shuffledObject(r, []JKV{kv("timestamp", jN(strconv.FormatInt(p.TsS, 10))), kv("value", jN(jfloat(p.Val)))})
 		}
 		m = append(m, kv("points", jA(ps...)))
